@@ -7,6 +7,6 @@ require (
 	pgregory.net/rapid v1.3.0
 )
 
-require golang.org/x/text v0.14.0 // indirect
+require golang.org/x/text v0.14.0
 
 replace github.com/emersion/go-imap/v2 => /repo
